@@ -18,6 +18,7 @@ import (
 )
 
 type daemon struct {
+	extraArgs []string // further command-line flags (e.g. -metrics -healthz)
 	dir       string
 	sshdPath  string
 	auditPath string
@@ -70,6 +71,7 @@ func mkfifo(p string) {
 func (d *daemon) start(trace bool) error {
 	bin := os.Getenv("VERIF_DAEMON")
 	args := []string{"-sshd-pipe-path", d.sshdPath, "-auditd-pipe-path", d.auditPath, "-app-events-output", d.outPath, "-log-level", "error"}
+	args = append(args, d.extraArgs...) // (a later -log-level overrides the earlier one)
 	if trace {
 		d.strace = filepath.Join(d.dir, "strace.out")
 		args = append([]string{"-f", "-qq", "-s", "65536", "-e", "trace=openat,write,close", "-o", d.strace, bin}, args...)
